@@ -91,7 +91,7 @@ def frac_corr(c, stream, cases_):
     lines = [ALGS[k["alg"]].request(k, list(k["vals"])) for k in cases_]
     answers = model_query(lines)
     for case, ans in zip(cases_, answers):
-        s = c.rng.choice([1, 2, 3, 8])
+        s = c.rng.choice([1, 2, 3, 8, 20, 40])
         sc = 2.0 ** s
         vals = [v / sc for v in case["vals"]]
         try:
@@ -1371,21 +1371,26 @@ def C17(c):
                 c.fail("ilp", {"alg": "ilp", "vals": sp["vals"], "p": label}, "dict_str", PT, verdict[0], got, verdict[1])
         # (3) equal weights never change the result (optimal objective value of the raw sums)
         for sp, line, label, got, om, names in ctx[: c.n(80, 600)]:
-            if sp["weights_arg"] is not None or J._is_err(got) or sp["cons"]:
+            if sp["weights_arg"] is not None or sp["cons"]:
                 continue
             w = rng.choice([2, 3, 7])
             sp2 = dict(sp, weights_arg=[w] * sp["k"], weights=[w] * sp["k"])
             got2, _ = ilp_call(sp2, cap, names)
-            ok = (not J._is_err(got2)) and obj_value(sp["obj"], got2["sums"]) == obj_value(sp["obj"], got["sums"])
-            if not ok and not J._is_err(got2):
+            want = _frac(om) if not (isinstance(om, dict)) else None      # the verified optimum for unit weights
+            def good(g):
+                return (not J._is_err(g)) and want is not None and obj_value(sp["obj"], g["sums"]) == want and g["sums"] == sorted(g["sums"])
+            ok = good(got2)
+            if not ok and want is not None:
                 with MipCapture() as cap3:      # solver fault?
                     cap3.preprocess_off = True
                     got3, _ = ilp_call(sp2, cap3, names)
-                if not J._is_err(got3) and obj_value(sp["obj"], got3["sums"]) == obj_value(sp["obj"], got["sums"]):
+                if good(got3):
                     c.solver_faults += 1
                     ok = True
+            if want is None:
+                ok = J._is_err(got2) and got2["error"] == "ValueError"
             c.check_direct("ilp", dict(label, weights_arg=[w] * sp["k"]), "equal-weights-change-result", ok, got2,
-                           f"the same optimal value as without weights ({got['sums']})")
+                           f"the same optimal value as without weights ({om}), sums ascending")
     c.assumptions.append("CBC / python-mip returns an optimal feasible point of the model it is given or a non-OPTIMAL status; certified per run against the "
                          "brute-force optimum of the Lean formulation; a wrong OPTIMAL answer that becomes right with preprocess=0 is counted as solver_fault")
 
